@@ -446,7 +446,7 @@ def kinds_pat(kinds):
     return " | ".join("K::" + k for k in sorted(kinds)) if kinds else "K::Eof if false"
 
 
-def gen():
+def gen(tier="quick"):
     out = []
     w = out.append
     w("// GENERATED by lib/gen_rules.py from lib/grammar.py (the documented grammar). Do not edit.")
@@ -489,6 +489,8 @@ def gen():
     # units
     names = []
     for (name, call, nt, stubs, n, first) in UNITS:
+        if tier == "thorough":
+            n = min(7, n + 2)      # CAP = 8 stream slots
         boundary = set()
         for c in stubs:
             if CALLEES[c][1] == "stmtlist":
